@@ -427,7 +427,10 @@ static void do_step(const Step &st) {
   } else if (op == "fsopt") {        // fsopt <short_read mode | -1> <eio at the k-th read from now | -1>
     files_set_read_faults(atol(st.a[0].c_str()), st.a.size() > 1 ? atol(st.a[1].c_str()) : -1);
   } else if (op == "fsarm") {        // fsarm <n>: the disk stops at the n-th mutating file call from now
-    files_arm_stop(atol(st.a[0].c_str()), st.a.size() > 1 && st.a[1] == "once");   // "once": a transient error, only that call fails
+    // "once": a transient error, only that call fails; "torn:<permille>": if that call is a write, this share of its bytes still reaches the file
+    bool once = false; long torn = -1;
+    for (size_t k = 1; k < st.a.size(); k++) { if (st.a[k] == "once") once = true; else if (st.a[k].compare(0, 5, "torn:") == 0) torn = atol(st.a[k].c_str() + 5); }
+    files_arm_stop(atol(st.a[0].c_str()), once, torn);
   } else if (op == "fsdisarm") {
     ev("fs_mut_calls %ld", files_mut_calls());
     files_arm_stop(-1);
